@@ -75,10 +75,15 @@ func (o *Obs) emitInitAndWS(s *hx.Session, res *Result, initial bool) {
 		if len(blobs) > 0 {
 			s.Op("b "+strings.Join(blobs, ","), "ok")
 		}
-		for _, name := range stores {
-			if sd, ok := o.Before[name]; ok {
-				s.Op(fmt.Sprintf("cnt %d %d", storeIdx(name), sd.Count), "ok")
+		var all []string
+		for name := range o.Before {
+			if strings.HasPrefix(name, "st") {
+				all = append(all, name)
 			}
+		}
+		sort.Strings(all)
+		for _, name := range all {
+			s.Op(fmt.Sprintf("cnt %d %d", storeIdx(name), o.Before[name].Count), "ok")
 		}
 	} else {
 		s.Op("clearws", "ok")
